@@ -79,7 +79,7 @@ func TestC02(t *testing.T) {
 	h := hh.Start(t, "C02",
 		"cases = (schema tree, input, mode) drawn by the witness-driven generator; non-trivial = the specification expects >=2 issues at >=2 distinct paths, or >=2 issues at one path, or a required/coerce/not_nil abort inside a multi-node schema; distinct = FNV-1a of the case JSON",
 		"issues compared as multisets of (path, code, type) against the executable specification (model/spec.go)",
-		"PostTransforms in these cases never fail; cases whose coercion the documentation does not determine are skipped and counted")
+		"PostTransforms in these cases never fail; cases whose coercion the documentation does not determine are skipped and counted; the code of a Preprocess issue and ptr as the type of a not_nil issue are not pinned; every execution starts after a fixed process prelude (collected issues, a recovered panic in a nested user callback)")
 	defer h.Finish()
 	reps := h.N(3, 8)
 	for _, mode := range []string{"parse", "validate"} {
